@@ -87,7 +87,8 @@ def check_tree(res, tree, errors, x, tag):
         for el in nxt:
             if el not in node:
                 res.fail(("membership", "missing"), "%s: %r not in node %r" % (tag, el, p))
-        for el in ("no-such-key-zz", 987654):
+        for el in ["no-such-key-zz", 987654] + [k for k in m.get(p, {}) if k not in nxt]:
+            # (the keywords that failed at this node are not children of it either)
             if el in node:
                 res.fail(("membership", "spurious"), "%s: %r in node %r" % (tag, el, p))
         below = sum(len(kws) for q, kws in m.items() if q[:len(p)] == p)
@@ -137,8 +138,23 @@ def index_clean_elements(res, tree, x, prefixes, m, errors, tag):
                 res.fail(("index-clean-raises", impl.tname(ex), "node-holds-propertyNames-error" if pn else "plain"),
                          "%s: tree%r[%r] raised %r" % (tag, list(p), c, ex))
                 continue
-            if n != 0:
-                res.fail(("index-clean-nonempty",), "%s: tree%r[%r].total_errors=%r" % (tag, list(p), c, n))
+            if n != 0 or len(sub) != 0 or list(sub) or dict(sub.errors):
+                res.fail(("index-clean-nonempty",), "%s: tree%r[%r]: total_errors=%r len=%r children=%r errors=%r" % (
+                    tag, list(p), c, n, len(sub), list(sub)[:4], dict(sub.errors)))
+                continue
+            # one level further into error-free territory (where the instance has something there)
+            try:
+                below = value_at(p + (c,))
+            except (KeyError, IndexError, TypeError):
+                continue
+            inner = list(below.keys())[:2] if isinstance(below, dict) else list(range(min(2, len(below)))) if isinstance(below, list) else []
+            for c2 in inner:
+                try:
+                    sub2 = sub[c2]
+                    if sub2.total_errors != 0 or list(sub2):
+                        res.fail(("index-clean-nonempty", "second-level"), "%s: tree%r[%r][%r] is not empty" % (tag, list(p), c, c2))
+                except Exception as ex:
+                    res.fail(("index-clean-raises", impl.tname(ex), "second-level"), "%s: tree%r[%r][%r] raised %r" % (tag, list(p), c, c2, ex))
 
 
 class C17(Prop):
